@@ -140,3 +140,21 @@ PROPS["C05"] = {
         "equal-timestamp gauge lines in one datagram: the later line must win (stated by the property)",
     ],
 }
+
+PROPS["C10"] = {
+    "pkg": "c10", "level": "exploration",
+    "jobs": {
+        "quick": [
+            {"name": "patterns", "run": "^TestPatternSemantics$", "checks": 4000, "shards": 2},
+            {"name": "stage", "run": "^TestTagStage$", "checks": 8000, "shards": 8},
+        ],
+        "thorough": [
+            {"name": "patterns", "run": "^TestPatternSemantics$", "checks": 200000, "shards": 2, "timeout": 1700},
+            {"name": "stage", "run": "^TestTagStage$", "checks": 1000000, "shards": 14, "timeout": 1700},
+        ],
+    },
+    "assumptions": [
+        "the model is FILTERING.md read literally: a filter is satisfied when (match-metrics empty or some pattern matches the name) and no exclude-metrics pattern matches the name and (match-tags empty or some pattern matches some incoming tag); drop-tags patterns are evaluated against the incoming tags",
+        "a static tag equal to a tag removed from that metric is not added back (the statement's 'not itself being removed from that metric')",
+    ],
+}
